@@ -237,7 +237,7 @@ def run(chk):
         "evaluations": len(progs), "distinct_nontrivial": len(outcomes),
         "rule": "one program = one transpile + one compile by the real pipeline (fresh Transpiler / Compiler each), script and .pyc executed by CPython 3.11 in fresh globals with stdout captured; "
                 "distinct = distinct (stdout, exit status) outcomes of the bytecode among compared programs",
-        "samples": samples, "states": states, "premise_satisfied_compared": compared, "families": fams,
+        "samples": samples, "program_states": states, "premise_satisfied_compared": compared, "families": fams,
         "declined_as_not_yet_implemented": declined_at, "nondeterministic_bytecode_excluded": nondet, "script_but_no_bytecode": no_bytecode[:40],
         "string_programs_whose_bytecode_prints_the_value": f"{expect_ok}/{expect_n}",
         "alphabet_of_string_contents": [n for n, _, _ in SIGMA], "exhaustive": True,
